@@ -91,7 +91,12 @@ impl LsmVerifier {
         assert!(self.mani.strs().count() == 0);
         // 2.  Collect the list of ssts and logs to be removed.  Wait until all are present.
         let verifier_setsum = setsum_from_info_default('O', self.mani.info('O'))?;
-        let (output_setsum, ssts_to_rm, logs_to_rm) = self.verify_one(entry, verifier_setsum)?;
+        let (output_setsum, mut ssts_to_rm, logs_to_rm) = self.verify_one(entry, verifier_setsum)?;
+        // NOTE:  A later fragment can re-create, and remove again, a file with the same contents and
+        // therefore the same name.  The trash holds one copy under that name and the later fragment
+        // still needs it, so it is neither waited for nor unlinked on behalf of this fragment.
+        let mentioned_later = self.mentioned_later(entry)?;
+        ssts_to_rm.retain(|sst| !mentioned_later.contains(sst));
         let mut edit = Edit::default();
         for sst in ssts_to_rm.iter() {
             let path = TRASH_SST(&self.root, *sst);
@@ -112,6 +117,33 @@ impl LsmVerifier {
         self.mani.apply(edit)?;
         self.possibly_complete_processing(entry)?;
         Ok(())
+    }
+
+    fn mentioned_later(&self, entry: &PathBuf) -> Result<Vec<Setsum>, SError> {
+        let mut mentioned = vec![];
+        let this = mani::extract_backup(entry);
+        for later in list_mani_fragments(&self.root)? {
+            if let Some(num) = mani::extract_backup(&later) {
+                if Some(num) <= this {
+                    continue;
+                }
+            }
+            let live = mani::extract_backup(&later).is_none();
+            for edit in ManifestIterator::open(&later)? {
+                let edit = match edit {
+                    Ok(edit) => edit,
+                    // The live manifest may be read in the middle of an append.
+                    Err(_) if live => break,
+                    Err(err) => return Err(err.into()),
+                };
+                for digest in edit.added().chain(edit.rmed()) {
+                    if let Some(setsum) = Setsum::from_hexdigest(digest) {
+                        mentioned.push(setsum);
+                    }
+                }
+            }
+        }
+        Ok(mentioned)
     }
 
     fn possibly_complete_processing(&mut self, entry: &PathBuf) -> Result<(), SError> {
